@@ -72,6 +72,7 @@ Expected(ev) ==
     [] ev.op = "withfield_b" -> VWithFieldBroadcast(ev.v, ev.T, a.new, a.vals)
     [] ev.op = "withfield" -> VWithFieldSelf(ev.v, ev.T, a.key, a.new)
     [] ev.op = "withslot" -> VWithSlot(ev.v, ev.T, a.slot, a.vals)
+    [] ev.op = "unzip" -> VUnzipLaw(ev.v, ev.T)
     [] ev.op = "ufunc" -> VUfunc(ev.v, ev.T, a.mul = 1)
     \* x + mask(x, m): the sum where both are present, None where either is missing (C04)
     [] ev.op = "addmasked" -> LET r == VUfunc(ev.v, ev.T, FALSE) IN
